@@ -4064,10 +4064,12 @@ void SoPlexBase<R>::_untransformEquality(SolRational& sol)
          assert(_basisStatusRows[row] != SPxSolverBase<R>::BASIC
                 || _basisStatusCols[col] != SPxSolverBase<R>::BASIC);
 
-         SPxOut::debug(this,
-                       "slack column {} for row {}: col status={}, row status={}, redcost={}, dual={}\n",
-                       col, row, _basisStatusCols[col], _basisStatusRows[row],
-                       sol._redCost[col].str(), sol._dual[row].str());
+         // the arguments are evaluated even when debug output is disabled; without a dual solution the vectors are empty
+         if(sol.isDualFeasible())
+            SPxOut::debug(this,
+                          "slack column {} for row {}: col status={}, row status={}, redcost={}, dual={}\n",
+                          col, row, _basisStatusCols[col], _basisStatusRows[row],
+                          sol._redCost[col].str(), sol._dual[row].str());
 
          if(_basisStatusRows[row] != SPxSolverBase<R>::BASIC)
          {
